@@ -105,6 +105,10 @@ var Ops = map[string]func() string{
 	"dec-req12-ttlv":  func() string { return decReq(In.BinReq12, ttlv.UnmarshalTTLV) },
 	"dec-resp13-xml":  func() string { return decResp(In.XmlResp13, ttlv.UnmarshalXML) },
 	"dec-create14-json": func() string { return decReq(In.JsonCr14, ttlv.UnmarshalJSON) },
+	// malformed inputs (truncated in the middle of the batch item): the decoder must report an error, not panic
+	"dec-trunc-req12-ttlv":   func() string { return decReq(In.BinReq12[:len(In.BinReq12)-20], ttlv.UnmarshalTTLV) },
+	"dec-trunc-resp13-xml":   func() string { return decResp(In.XmlResp13[:len(In.XmlResp13)*2/3], ttlv.UnmarshalXML) },
+	"dec-trunc-create14-json": func() string { return decReq(In.JsonCr14[:len(In.JsonCr14)*2/3], ttlv.UnmarshalJSON) },
 	"reuse-10-then-14": func() string {
 		enc := ttlv.NewTTLVEncoder()
 		enc.Any(codecReq(kmip.V1_0, "a"))
